@@ -425,6 +425,13 @@ func runC15Case(r *ev.Run, c c15Case) (open bool) {
 			r.Count("auth_success_with_server_proof", 1)
 		case invalidAcked:
 			viol("success-after-invalid-server-final", "authentication reported successful after an invalid server-final was acknowledged", steps)
+		case len(steps) == 0 || steps[len(steps)-1].Sym != "235":
+			// the server never said 235: its last word was a challenge the client left unanswered, or a negative reply
+			last := "nothing"
+			if len(steps) > 0 {
+				last = steps[len(steps)-1].Sym + ">" + steps[len(steps)-1].RespKind
+			}
+			viol("success-without-positive-final-reply", fmt.Sprintf("authentication reported successful although the server ended the exchange of %d messages without a 235 (last server message and the client's reaction: %s)", len(steps), last), steps)
 		default:
 			viol("accept-235-without-server-final", fmt.Sprintf("authentication reported successful although the server never presented the valid ServerSignature in this exchange (first deviation %s, script %v)", dev, c.Script), steps)
 		}
@@ -639,7 +646,7 @@ func c15WarmOtherPassword(r *ev.Run) {
 
 func runC15(r *ev.Run, rep *ev.ReplayDoc) ev.Summary {
 	sum := ev.Summary{
-		Rule: "exhaustive adaptive server message sequences over the alphabet {valid server-first, server-first with foreign / truncated nonce, malformed server-first, server-first with iteration count 0, valid server-final, server-final signed with an all-zero key, empty verifier, verifier of extensions only, valid signature with trailing bytes, server-final of another key, of another exchange, over empty client state, server-error (e=...), empty challenge, junk, 235, 535} up to length 5 (quick: 4), explored as an execution tree (a branch is extended only while the client is still inside the exchange), for SCRAM-SHA-1, SCRAM-SHA-256 and both -PLUS variants (TLS 1.2 and 1.3), through mail.Client and directly through smtp.Client.Auth. 'valid' symbols are computed from what the client actually sent. Before the exploration the process completes one honest exchange per hash for the same account, salt and iteration count with another password (another Auth value). Plus: passwords the SCRAM password preparation refuses, one smtp.Auth value used for three exchanges against a server that does not know the password and signs with the empty one. non-trivial = script deviates from the honest sequence; distinct by (mechanism, script)",
+		Rule: "exhaustive adaptive server message sequences over the alphabet {valid server-first, server-first with foreign / truncated nonce, malformed server-first, server-first with iteration count 0, valid server-final, server-final signed with an all-zero key, empty verifier, verifier of extensions only, valid signature with trailing bytes, server-final of another key, of another exchange, over empty client state, server-error (e=...), empty challenge, junk, 235, 535} up to length 5 (quick: 4), explored as an execution tree (a branch is extended only while the client is still inside the exchange), for SCRAM-SHA-1, SCRAM-SHA-256 and both -PLUS variants (TLS 1.2 and 1.3), through mail.Client and directly through smtp.Client.Auth. 'valid' symbols are computed from what the client actually sent. Before the exploration the process completes one honest exchange per hash for the same account, salt and iteration count with another password (another Auth value). Plus: exchanges longer than any honest one (3..14, thorough 3..40 harmless messages - empty challenges and valid server-first messages - before the server ends the exchange with 535, a forged or the valid server-final). Plus: passwords the SCRAM password preparation refuses, one smtp.Auth value used for three exchanges against a server that does not know the password and signs with the empty one. non-trivial = script deviates from the honest sequence; distinct by (mechanism, script)",
 		Assumptions: []string{
 			"the honest sequence is: empty challenge -> client-first, server-first, client-final, server-final, empty acknowledgement, 235",
 			"success may only be reported if a valid server-final for the running exchange was acknowledged before the final reply",
@@ -729,6 +736,40 @@ func runC15(r *ev.Run, rep *ev.ReplayDoc) ev.Summary {
 		}
 	}
 	r.Parallel(len(pcases), func(i int) { runC15Case(r, pcases[i]) })
+	// exchanges that are longer than any honest one: the server keeps the client inside the exchange with messages that
+	// are harmless one by one (the empty challenge, which the client answers with a new client-first, and valid
+	// server-first messages) and only then ends it - with 535, with a forged server-final, or with the valid one and 235
+	var lcases []c15Case
+	for _, rt := range []root{{"SCRAM-SHA-256", "none", "direct"}, {"SCRAM-SHA-1", "none", "client"}, {"SCRAM-SHA-256-PLUS", "1.3", "client"}} {
+		for n := 3; n <= r.Pick(14, 40); n++ {
+			for _, shape := range []string{"pairs", "empties", "mixed"} {
+				var body []string
+				rng := r.Rng("c15long|"+rt.mech+"|"+shape, n)
+				for len(body) < n {
+					switch shape {
+					case "pairs":
+						body = append(body, "E", "SF")
+					case "empties":
+						body = append(body, "E")
+					default:
+						if rng.Intn(2) == 0 {
+							body = append(body, "E", "SF")
+						} else {
+							body = append(body, "E")
+						}
+					}
+				}
+				for _, end := range [][]string{{"535"}, {"E", "SF", "Vk", "235"}, {"E", "SF", "V", "235"}, nil} {
+					lcases = append(lcases, c15Case{Mech: rt.mech, TLS: rt.tls, Via: rt.via, Script: append(append([]string(nil), body...), end...)})
+				}
+			}
+		}
+	}
+	r.Parallel(len(lcases), func(i int) {
+		runC15Case(r, lcases[i])
+		r.Count("exchanges_longer_than_honest", 1)
+		r.Max("longest_exchange_messages", int64(len(lcases[i].Script)))
+	})
 	// passwords the SCRAM password preparation refuses, the same Auth value used for several exchanges
 	var ucases []c15UnusableCase
 	for _, mech := range []string{"SCRAM-SHA-256", "SCRAM-SHA-1"} {
